@@ -2,7 +2,15 @@
 Channel `walk` (C20): ties Model/MapWalk.lean to the real functions.
   walk sorted <k1> <k2> …      keys (dot-coded strings) in the order the harness inserted
                                them; answer = the sorted key slice, `,`-joined codes
-  walk typename <goType> <order…> | <name:goType:registeredName …>
+  walk api <entry> <program>   an exported conversion entry point called directly on the value of
+                               the program, in 8 fresh interpreters: every modelled walk is
+                               permutation-invariant, so model and spec answer `stable`
+  walk intern <k1> <k2> … [| <z1> <z2> …]
+                               a JSON object with these member names (values are numbers;
+                               a member `Atype` holds a string) and, after `|`, a member
+                               `zKeyOrder` listing those strings, decoded by the real
+                               GoToSexp in a fresh interpreter; answer = the names the decode
+                               interned, in symbol-NUMBER order
 The model is run on the given order AND on its reverse (two iteration orders); both must
 agree (they do, by the theorems) — the answer carries the first. Spec = order-free spec.
 -/
@@ -30,6 +38,21 @@ def handle (toks : List String) : String :=
       let sh (l : List String) := ",".intercalate (l.map encodeStr)
       if a == b then s!"{sh a}\t{sh s}" else s!"MODEL-ORDER-DEPENDENT\t{sh s}"
     | none => "bad-op\t-"
+  | ["api", _entry, prog] =>
+    if (parseCodes? prog).isSome then "stable\tstable" else "bad-op\t-"
+  | "intern" :: rest =>
+    let (ks, zs) := rest.span (· ≠ "|")
+    match ks.mapM decodeStr, (zs.drop 1).mapM decodeStr with
+    | some keys, some znames =>
+      let members : List (String × List String) :=
+        keys.map (fun k => (k, [])) ++ (if zs.isEmpty then [] else [("zKeyOrder", znames)])
+      let run (m : List (String × List String)) := decodeIntern (fun _ => []) id [] m
+      let a := run members
+      let b := run members.reverse
+      let s := Spec.OrderFree.decodedSymbolOrder [] members
+      let sh (l : List String) := if l.isEmpty then "-" else ",".intercalate (l.map encodeStr)
+      if a == b then s!"{sh a}\t{sh s}" else s!"MODEL-ORDER-DEPENDENT\t{sh s}"
+    | _, _ => "bad-op\t-"
   | _ => "bad-op\t-"
 
 end ZygoVerif.Driver.Walk
